@@ -32,6 +32,7 @@ SPECIAL = [
     ("ref_and_value", '#[derive_ex::derive_ex(Clone, Debug, PartialEq, Eq, PartialOrd, Ord, Hash)]\npub enum X<\'a, T> { Borrowed(&\'a T), Owned(T), Both { r: &\'a T, v: T }, Nested(Option<&\'a T>, Vec<T>) }\n#[derive_ex::derive_ex(Clone, Debug, PartialEq, Eq, PartialOrd, Ord, Hash)]\npub struct S<\'a, T> { pub r: &\'a T, pub v: T }\n\npub mod twin { #[derive(Clone, Debug, PartialEq, Eq, PartialOrd, Ord, Hash)] pub enum X<\'a, T> { Borrowed(&\'a T), Owned(T), Both { r: &\'a T, v: T }, Nested(Option<&\'a T>, Vec<T>) }\n #[derive(Clone, Debug, PartialEq, Eq, PartialOrd, Ord, Hash)] pub struct S<\'a, T> { pub r: &\'a T, pub v: T } }\npub fn ncheck() -> Vec<String> { let mut out = Vec::new(); let (p, q) = (1u8, 2u8);\n    let vs = vec![(X::Borrowed(&p), twin::X::Borrowed(&p)), (X::Borrowed(&q), twin::X::Borrowed(&q)), (X::Owned(1u8), twin::X::Owned(1u8)), (X::Owned(2), twin::X::Owned(2)), (X::Both { r: &q, v: 1 }, twin::X::Both { r: &q, v: 1 }), (X::Both { r: &p, v: 2 }, twin::X::Both { r: &p, v: 2 }), (X::Nested(Some(&p), vec![2]), twin::X::Nested(Some(&p), vec![2])), (X::Nested(None, vec![]), twin::X::Nested(None, vec![]))];\n    for (a, t) in vs.iter() { if format!("{:?}", a) != format!("{:?}", t) || format!("{:#?}", a.clone()) != format!("{:#?}", t.clone()) { out.push(format!("Debug/Clone differs: {:?} vs {:?}", a, t)); } }\n    for (a, t) in vs.iter() { for (b, u) in vs.iter() { if a.cmp(b) != t.cmp(u) || (a == b) != (t == u) || a.partial_cmp(b) != t.partial_cmp(u) { out.push(format!("comparison differs from the standard derive: {:?} vs {:?}", a, b)); } } }\n    let (sa, ta) = (S { r: &p, v: 2u8 }, twin::S { r: &p, v: 2u8 }); let (sb, tb) = (S { r: &q, v: 1u8 }, twin::S { r: &q, v: 1u8 });\n    if sa.cmp(&sb) != ta.cmp(&tb) || (sa == sb) != (ta == tb) || format!("{:?}", sa.clone()) != format!("{:?}", ta.clone()) { out.push("struct with a reference and a value of the same parameter differs".to_string()); }\n    out }\n'),
     ("via_macro_rules", 'macro_rules! with_ex { ($($b:tt)*) => { #[derive_ex::derive_ex(Clone, Debug, Default, PartialEq, Eq, PartialOrd, Ord, Hash)] $($b)* } }\nmacro_rules! with_std { ($($b:tt)*) => { #[derive(Clone, Debug, Default, PartialEq, Eq, PartialOrd, Ord, Hash)] $($b)* } }\nwith_ex! { pub struct X<T> { pub a: u8, pub t: Option<T> } }\nwith_ex! { pub enum Y { #[default] A, B(u8, bool), C { c: i16 } } }\n\npub mod twin { with_std! { pub struct X<T> { pub a: u8, pub t: Option<T> } }\n with_std! { pub enum Y { #[default] A, B(u8, bool), C { c: i16 } } } }\npub fn ncheck() -> Vec<String> { let mut out = Vec::new();\n    let xs = [(X { a: 1, t: Some(2u8) }, twin::X { a: 1, t: Some(2u8) }), (X { a: 1, t: None }, twin::X { a: 1, t: None }), (X::default(), twin::X::default())];\n    for (a, t) in xs.iter() { for (b, u) in xs.iter() { if a.cmp(b) != t.cmp(u) || (a == b) != (t == u) || format!("{:?}", a.clone()) != format!("{:?}", t.clone()) { out.push("struct from macro_rules differs from the standard derive".to_string()); } } }\n    let ys = [(Y::A, twin::Y::A), (Y::B(1, true), twin::Y::B(1, true)), (Y::C { c: -2 }, twin::Y::C { c: -2 }), (Y::default(), twin::Y::default())];\n    for (a, t) in ys.iter() { for (b, u) in ys.iter() { if a.cmp(b) != t.cmp(u) || a.partial_cmp(b) != t.partial_cmp(u) || (a == b) != (t == u) || format!("{:#?}", a.clone()) != format!("{:#?}", t.clone()) { out.push("enum from macro_rules differs from the standard derive".to_string()); } } }\n    out }\n'),
     ("same_type_two_lifetimes", '#[derive_ex::derive_ex(Clone, Debug, PartialEq)]\npub struct Diff<\'a, \'b, T> { pub old: &\'a T, pub new: &\'b T }\n\npub mod twin { #[derive(Clone, Debug, PartialEq)] pub struct Diff<\'a, \'b, T> { pub old: &\'a T, pub new: &\'b T } }\npub fn ncheck() -> Vec<String> { let mut out = Vec::new(); let (p, q) = (1u8, 2u8); let (a, t) = (Diff { old: &p, new: &q }, twin::Diff { old: &p, new: &q });\n    if format!("{:?}", a.clone()) != format!("{:?}", t.clone()) || (a == a.clone()) != (t == t.clone()) { out.push("differs".to_string()); } out }\n'),
+    ("const_as_pattern", '#[derive_ex::derive_ex(PartialEq, Eq)]\npub struct S(pub u8);\npub const ZERO: S = S(0);\n\npub mod twin { #[derive(PartialEq, Eq)] pub struct S(pub u8); pub const ZERO: S = S(0); }\npub fn ncheck() -> Vec<String> { let mut out = Vec::new(); let a = match S(0) { ZERO => 1, _ => 2 }; let b = match twin::S(0) { twin::ZERO => 1, _ => 2 }; if a != b { out.push("differs".to_string()); } out }\n'),
     ("raw_idents", '#[derive_ex::derive_ex(Clone, Debug, Default, PartialEq, Eq, PartialOrd, Ord, Hash)]\npub struct r#struct { pub r#type: u8, pub r#fn: bool }\n\npub mod twin { #[derive(Clone, Debug, Default, PartialEq, Eq, PartialOrd, Ord, Hash)] pub struct r#struct { pub r#type: u8, pub r#fn: bool } }\n'
      'pub fn ncheck() -> Vec<String> { let mut out = Vec::new(); let a = r#struct { r#type: 1, r#fn: true }; let ta = twin::r#struct { r#type: 1, r#fn: true };\n'
      '    for (d, t) in [(format!("{:?}", a), format!("{:?}", ta)), (format!("{:#?}", a), format!("{:#?}", ta))] { if d != t { out.push(format!("Debug differs for raw identifiers: {:?} vs {:?}", d, t)); } }\n    out }\n'),
